@@ -19,6 +19,21 @@ Proof.
   destruct (call s c) as [s1|] eqn:Hc; [|discriminate]. eapply IH; [|eassumption]. eapply Hcall; eauto.
 Qed.
 
+Lemma loop_recalc_ind (P : state -> N -> Prop) call x :
+  (forall s c t mn s1 mn1, P s mn -> lr (nd s x) = c :: t -> call s c mn = Some (s1, mn1) -> P s1 mn1) ->
+  forall k s mn s' mn', P s mn -> loop_recalc call k x s mn = Some (s', mn') -> P s' mn' /\ lr (nd s' x) = [].
+Proof.
+  intros Hcall. induction k as [|k IH]; intros s mn s' mn' Hp H; [discriminate|]. simpl in H.
+  destruct (lr (nd s x)) as [|c t] eqn:Hl; [inversion H; subst; auto|].
+  destruct (call s c mn) as [[s1 mn1]|] eqn:Hc; [|discriminate]. eapply IH; [|eassumption]. eapply Hcall; eauto.
+Qed.
+
+Lemma sorted_head_le m l c :
+  sorted m l -> In c l -> (match l with h :: _ => agg (m h) | [] => NEVER end <= agg (m c))%N.
+Proof.
+  destruct l as [|h t]; [intros _ []|]. simpl. intros [Hh _] [<-|Hin]; [apply N.le_refl|now apply Hh].
+Qed.
+
 (* ------------------------------------------------------------------ scalar updates used by the sweeps *)
 
 Lemma Good_scalar_upd G m x n :
@@ -252,5 +267,177 @@ Section Sweeps.
         * rewrite upd_other by assumption. unfold m1. rewrite upd_other by assumption. repeat split.
       + intros z Hz. rewrite upd_other by assumption. unfold m1. now rewrite upd_other.
       + rewrite upd_same, Hm1x. reflexivity.
+  Qed.
+
+  Definition frame_but (x : nat) (m m' : nmap) : Prop :=
+    (forall y, parent (m' y) = parent (m y) /\ alive (m' y) = alive (m y)) /\
+    (forall z, z <> x -> cur (m' z) = cur (m z) /\ valid (m' z) = valid (m z) /\ sched (m' z) = sched (m z) /\ agg (m' z) = agg (m z)).
+
+  Lemma get_finish_good G f s x mn s' mn' :
+    Good G (nd s) -> rn (cur (nd s x)) -> valid (nd s x) = true -> lr (nd s x) = [] ->
+    get_finish f s x mn = Some (s', mn') ->
+    Good G (nd s') /\ frame_but x (nd s) (nd s') /\
+    valid (nd s' x) = true /\ sched (nd s' x) = sched (nd s x) /\
+    agg (nd s' x) = N.min (sched (nd s x)) (first_sched_agg (nd s) x) /\
+    (parent (nd s x) = None \/ su (cur (nd s' x))) /\
+    (forall q, parent (nd s x) <> Some q -> forall l, get_list (nd s' q) l = get_list (nd s q) l) /\
+    evs s' = evs s /\ mn' = N.min mn (agg (nd s' x)).
+  Proof.
+    intros Hg Hrn Hv Hlr H. unfold get_finish in H.
+    set (m := nd s) in *. set (a := N.min (sched (m x)) (first_sched_agg m x)) in *.
+    set (m1 := upd m x (set_agg (m x) a)) in *.
+    pose proof (i_core _ (g_inv _ _ Hg)) as Hc. pose proof (c_wf _ Hc) as Hwf.
+    assert (Ha : (a <= NEVER)%N).
+    { unfold a. etransitivity; [apply N.le_min_l|]. apply (c_k6 _ Hc). }
+    pose proof (Good_agg_upd G m x a Hg Hrn Ha) as Hg1. fold m1 in Hg1.
+    assert (Hm1x : m1 x = set_agg (m x) a) by (unfold m1; apply upd_same).
+    assert (Hm1o : forall z, z <> x -> m1 z = m z) by (intros z Hz; unfold m1; now apply upd_other).
+    assert (Hmin : (if N.ltb a mn then a else mn) = N.min mn a).
+    { destruct (N.ltb_spec a mn); lia. }
+    assert (Hfsa : first_sched_agg m1 x = first_sched_agg m x).
+    { unfold first_sched_agg. rewrite Hm1x. simpl. destruct (ls (m x)) as [|h t] eqn:Hls; [reflexivity|].
+      assert (h <> x).
+      { intro; subst h. destruct (wf_in _ _ Hwf x x LSched) as [Hp _]; [simpl; rewrite Hls; now left|].
+        now apply (wf_noself _ _ Hwf x). }
+      now rewrite Hm1o. }
+    assert (Hfr1 : frame_but x m m1).
+    { split; [intro y; unfold m1; destruct (upd_cases m x (set_agg (m x) a) y) as [[-> ->]|[_ ->]]; split; reflexivity|].
+      intros z Hz. rewrite Hm1o by assumption. repeat split. }
+    assert (Hpx : parent (m1 x) = parent (m x)) by (rewrite Hm1x; reflexivity).
+    rewrite Hpx in H. destruct (parent (m x)) as [p|] eqn:Hp.
+    - assert (Hcx : cur (m x) = LRecalc).
+      { destruct Hrn as [Hr|Hr]; [assumption|]. exfalso. eapply (i_listed _ (g_inv _ _ Hg)); eauto. }
+      assert (Hcx1 : cur (m1 x) = LRecalc) by (rewrite Hm1x; exact Hcx).
+      rewrite Hcx1 in H. simpl in H.
+      set (w := if N.eqb a NEVER then LUnsched else LSched) in *.
+      destruct (resched f m1 p x w) as [m2|] eqn:Hr; [|discriminate]. inversion H; subst s' mn'. simpl. clear H.
+      assert (Hw : su w) by (unfold w; destruct (N.eqb a NEVER); [right|left]; reflexivity).
+      assert (P1 : parent (m1 x) = Some p) by (rewrite Hm1x; exact Hp).
+      assert (P2 : lr (m1 x) = []) by (rewrite Hm1x; exact Hlr).
+      assert (P3 : valid (m1 x) = true) by (rewrite Hm1x; exact Hv).
+      assert (P4 : w = LSched -> agg (m1 x) <> NEVER).
+      { intro Hw'. rewrite Hm1x. simpl. unfold w in Hw'. destruct (N.eqb_spec a NEVER); [discriminate|assumption]. }
+      assert (P5 : w = LUnsched -> agg (m1 x) = NEVER).
+      { intro Hw'. rewrite Hm1x. simpl. unfold w in Hw'. destruct (N.eqb_spec a NEVER); [assumption|discriminate]. }
+      assert (P6 : agg (m1 x) = N.min (sched (m1 x)) (first_sched_agg m1 x)).
+      { rewrite Hfsa. rewrite Hm1x. reflexivity. }
+      destruct (resched_SU_good G f m1 p x w m2 Hg1 P1 Hcx1 Hw P2 P3 P4 P5 P6 Hr) as (Hg2 & Hsc & Hco & Hcc & HL).
+      { destruct (Hsc x) as (_&Hax&Hsx&Hvx&_).
+        split; [assumption|]. split.
+        { split.
+          - intro y. destruct (Hsc y) as (Hpy&_&_&_&Hay&_). destruct (proj1 Hfr1 y) as [H1 H2]. split; congruence.
+          - intros z Hz. destruct (Hsc z) as (_&Haz&Hsz&Hvz&_). destruct (proj2 Hfr1 z Hz) as (H1&H2&H3&H4).
+            rewrite Hco by assumption. repeat split; congruence. }
+        split; [rewrite Hvx, Hm1x; exact Hv|]. split; [rewrite Hsx, Hm1x; reflexivity|].
+        split; [rewrite Hax, Hm1x; reflexivity|]. split; [right; now rewrite Hcc|].
+        split; [|split; [reflexivity|]].
+        * intros q Hq l. rewrite HL by congruence. destruct (Nat.eq_dec q x) as [->|Hqx]; [rewrite Hm1x; now destruct l|now rewrite Hm1o].
+        * rewrite Hmin. f_equal. rewrite Hax, Hm1x. reflexivity. }
+    - inversion H; subst s' mn'. simpl. clear H.
+      split; [assumption|]. split; [assumption|]. split; [rewrite Hm1x; exact Hv|]. split; [rewrite Hm1x; reflexivity|].
+      split; [rewrite Hm1x; reflexivity|]. split; [now left|]. split; [|split; [reflexivity|]].
+      + intros q _ l. destruct (Nat.eq_dec q x) as [->|Hqx]; [rewrite Hm1x; now destruct l|now rewrite Hm1o].
+      + rewrite Hmin. f_equal. rewrite Hm1x. reflexivity.
+  Qed.
+
+  Definition same_fields (m m' : nmap) (z : nat) : Prop :=
+    cur (m' z) = cur (m z) /\ valid (m' z) = valid (m z) /\ sched (m' z) = sched (m z) /\ agg (m' z) = agg (m z).
+
+  Lemma get_aux_spec now : forall f G s x mn s' mn',
+    Good G (nd s) -> rn (cur (nd s x)) -> get_aux gt f now s x mn = Some (s', mn') ->
+    Good G (nd s') /\
+    (forall y, parent (nd s' y) = parent (nd s y) /\ alive (nd s' y) = alive (nd s y)) /\
+    (forall z, ~ desc (nd s) x z -> same_fields (nd s) (nd s') z) /\
+    valid (nd s' x) = true /\ lr (nd s' x) = [] /\
+    agg (nd s' x) = N.min (sched (nd s' x)) (first_sched_agg (nd s') x) /\
+    (parent (nd s x) = None \/ su (cur (nd s' x))) /\
+    mn' = N.min mn (agg (nd s' x)).
+  Proof.
+    induction f as [|f IH]; intros G s x mn s' mn' Hg Hrn H; [discriminate|]. simpl in H.
+    destruct (get_self gt f s x now) as [s1|] eqn:Hself; [|discriminate].
+    destruct (loop_recalc (get_aux gt f now) f x s1 mn) as [[s2 mn2]|] eqn:Hloop; [|discriminate].
+    destruct (get_self_good G f s x now s1 Hg Hrn Hself) as (Hg1 & Hv1 & Hst1 & Ho1 & Ha1).
+    (* the loop *)
+    set (P := fun (si : state) (mi : N) =>
+      Good G (nd si) /\
+      (forall y, parent (nd si y) = parent (nd s y) /\ alive (nd si y) = alive (nd s y)) /\
+      (forall z, ~ desc (nd s) x z -> same_fields (nd s) (nd si) z) /\
+      valid (nd si x) = true /\ cur (nd si x) = cur (nd s x) /\
+      (mi <= mn)%N /\
+      (forall B, (B <= mn)%N ->
+         (forall c, parent (nd si c) = Some x -> su (cur (nd si c)) -> (B <= agg (nd si c))%N) -> (B <= mi)%N)).
+    assert (HP1 : P s1 mn).
+    { unfold P. split; [assumption|]. split; [|split; [|split; [assumption|split; [|split]]]].
+      - intro y. destruct (Hst1 y) as (H1&_&_&_&_&H2). auto.
+      - intros z Hz. assert (z <> x) by (intro; subst; apply Hz; constructor).
+        rewrite Ho1 by assumption. repeat split.
+      - now destruct (Hst1 x) as (_&?&_).
+      - apply N.le_refl.
+      - intros B HB _. exact HB. }
+    assert (Hstep : forall si c t mi si1 mi1, P si mi -> lr (nd si x) = c :: t ->
+                      get_aux gt f now si c mi = Some (si1, mi1) -> P si1 mi1).
+    { intros si c t mi si1 mi1 (Hgi & Hpi & Hfi & Hvi & Hci & Hmi & HQi) Hl Hcall.
+      pose proof (i_core _ (g_inv _ _ Hgi)) as Hcore. pose proof (c_wf _ Hcore) as Hwf.
+      assert (Hcin : In c (get_list (nd si x) LRecalc)) by (simpl; rewrite Hl; now left).
+      destruct (wf_in _ _ Hwf x c LRecalc Hcin) as [Hpc Hcc].
+      destruct (IH G si c mi si1 mi1 Hgi (or_introl Hcc) Hcall) as (Hg' & Hp' & Hf' & Hv' & Hlr' & Hagg' & Hsu' & Hmn').
+      assert (Hncx : ~ desc (nd si) c x) by (apply acyc_no_cycle; [apply (c_acyc _ Hcore)|assumption]).
+      assert (Hdsub : forall z, desc (nd si) c z -> desc (nd s) x z).
+      { intros z Hd. apply desc_trans with (b := c).
+        - eapply desc_child; [constructor|]. destruct (Hpi c) as [Hq _]. congruence.
+        - apply (desc_parent_ext (nd si)); [|assumption]. intro y. now destruct (Hpi y) as [? _]. }
+      unfold P. split; [assumption|]. split; [|split; [|split; [|split; [|split]]]].
+      - intro y. destruct (Hp' y) as [H1 H2]. destruct (Hpi y) as [H3 H4]. split; congruence.
+      - intros z Hz. destruct (Hfi z Hz) as (F1&F2&F3&F4).
+        destruct (Hf' z) as (E1&E2&E3&E4); [intro Hd; apply Hz; now apply Hdsub|].
+        repeat split; congruence.
+      - destruct (Hf' x Hncx) as (_&E2&_). congruence.
+      - destruct (Hf' x Hncx) as (E1&_). congruence.
+      - rewrite Hmn'. etransitivity; [apply N.le_min_l|assumption].
+      - intros B HB Hall. rewrite Hmn'. apply N.min_glb.
+        + apply HQi; [assumption|]. intros c' Hpc' Hsu'c.
+          assert (Hne : c' <> c) by (intro; subst c'; rewrite Hcc in Hsu'c; destruct Hsu'c; discriminate).
+          assert (Hnd' : ~ desc (nd si) c c').
+          { intro Hd. apply desc_inv in Hd. destruct Hd as [?|(q & Hq & Hd)]; [congruence|].
+            rewrite Hpc' in Hq. inversion Hq; subst q. contradiction. }
+          destruct (Hf' c' Hnd') as (E1&_&_&E4). rewrite <- E4. apply Hall.
+          * destruct (Hp' c') as [Hq _]. congruence.
+          * now rewrite E1.
+        + apply Hall.
+          * destruct (Hp' c) as [Hq _]. congruence.
+          * destruct Hsu' as [Hn|Hs]; [congruence|assumption]. }
+    destruct (loop_recalc_ind P (get_aux gt f now) x Hstep f s1 mn s2 mn2 HP1 Hloop)
+      as ((Hg2 & Hp2 & Hf2 & Hv2 & Hc2 & Hm2 & HQ2) & Hlr2).
+    assert (Hrn2 : rn (cur (nd s2 x))) by (rewrite Hc2; assumption).
+    destruct (get_finish_good G f s2 x mn2 s' mn' Hg2 Hrn2 Hv2 Hlr2 H)
+      as (Hg' & [Hfp Hfo] & Hv' & Hs' & Ha' & Hsu' & HL' & _ & Hmn').
+    pose proof (i_core _ (g_inv _ _ Hg2)) as Hcore2. pose proof (c_wf _ Hcore2) as Hwf2.
+    assert (Hxx : parent (nd s2 x) <> Some x) by apply (wf_noself _ _ Hwf2).
+    assert (Hlsx : ls (nd s' x) = ls (nd s2 x)).
+    { change (get_list (nd s' x) LSched = get_list (nd s2 x) LSched). now apply HL'. }
+    assert (Hfsa : first_sched_agg (nd s') x = first_sched_agg (nd s2) x).
+    { unfold first_sched_agg. rewrite Hlsx. destruct (ls (nd s2 x)) as [|h t] eqn:Hls; [reflexivity|].
+      assert (h <> x).
+      { intro; subst h. destruct (wf_in _ _ Hwf2 x x LSched) as [Hp _]; [simpl; rewrite Hls; now left|]. contradiction. }
+      now destruct (Hfo h H0) as (_&_&_&?). }
+    split; [assumption|]. split; [|split; [|split; [assumption|split; [|split; [|split]]]]].
+    - intro y. destruct (Hfp y) as [H1 H2]. destruct (Hp2 y) as [H3 H4]. split; congruence.
+    - intros z Hz. assert (z <> x) by (intro; subst; apply Hz; constructor).
+      destruct (Hf2 z Hz) as (F1&F2&F3&F4). destruct (Hfo z H0) as (E1&E2&E3&E4). repeat split; congruence.
+    - change (get_list (nd s' x) LRecalc = []). rewrite HL' by assumption. exact Hlr2.
+    - rewrite Ha', Hs', Hfsa. reflexivity.
+    - destruct Hsu' as [Hn|Hs]; [left|right; assumption]. destruct (Hp2 x) as [Hq _]. congruence.
+    - rewrite Hmn'. set (a := agg (nd s' x)) in *.
+      assert (HB : (N.min mn a <= mn2)%N).
+      { apply HQ2; [apply N.le_min_l|]. intros c Hpc Hsuc. etransitivity; [apply N.le_min_r|].
+        unfold a. rewrite Ha'. etransitivity; [apply N.le_min_r|].
+        destruct Hsuc as [Hsc|Huc].
+        - pose proof (wf_par _ _ Hwf2 c x (fun F => F) Hpc) as Hin. rewrite Hsc in Hin.
+          specialize (Hin ltac:(discriminate)). simpl in Hin.
+          pose proof (sorted_head_le (nd s2) (ls (nd s2 x)) c (c_k5 _ Hcore2 x) Hin) as Hle.
+          unfold first_sched_agg. destruct (ls (nd s2 x)); [destruct Hin|exact Hle].
+        - destruct (c_k4 _ Hcore2 c) as [_ Hu]. rewrite (Hu Huc).
+          unfold first_sched_agg. destruct (ls (nd s2 x)) as [|h t]; [apply N.le_refl|apply (c_k6 _ Hcore2)]. }
+      lia.
   Qed.
 End Sweeps.
